@@ -48,6 +48,20 @@ class Harness:
         from . import values
 
         values.PC_PROVIDER[0] = lambda: self.interp.ctx.pc
+
+        def align(a, b, what):
+            """two arrays combined positionally whose rows cannot be shown to coincide: if they are rows of the same
+            universe in the same order, emit the alignment obligation (same membership) and go on"""
+            from .frames import RowAxis
+
+            if isinstance(a, RowAxis) and isinstance(b, RowAxis) and a.root is b.root and a.order == b.order and len(a.doms) == len(b.doms) == 1:
+                n = self.interp.ctx.__dict__.setdefault("_align_n", [0])
+                n[0] += 1
+                self.interp.ctx.oblige(f"align.{what.strip()}#{n[0]}", z3.Implies(z3.And(*a.root.facts()), a.doms[0] == b.doms[0]), kind="alignment", why=f"operands of `{what}` are combined by position: they must have the same rows ({a.name} vs {b.name})")
+                return True
+            return False
+
+        values.ALIGN_HOOK[0] = align
         self.contracts = self.interp.contracts
         self.replays = {}
         self.n_requires = 0
@@ -122,6 +136,15 @@ class Harness:
         full = f"{self.udesc['prop']}.{self.udesc['name']}.{name}"
         self.ctx.obligations.append(Obligation(full, [a.t if isinstance(a, V) else a for a in assumptions], goal.t if isinstance(goal, V) else goal, dict(kind="lemma")))
 
+    def forall_rows(self, root, fact):
+        """assume `fact` (a term over the generic row root.u) for EVERY row: at both generic indices and as a
+        quantified axiom (used by Skolem witnesses the theories introduce)"""
+        fact = fact.t if isinstance(fact, V) else fact
+        x = z3.Int("x!row")
+        self.ctx.assume(fact)
+        self.ctx.assume(z3.substitute(fact, (root.u, root.u2)))
+        self.ctx.assume(z3.ForAll([x], z3.Implies(z3.And(x >= 0, x < root.n), z3.substitute(fact, (root.u, x)))))
+
     def fail(self, name, why, replay=None):
         """an obligation that is violated whenever this program point is reachable"""
         full = f"{self.udesc['prop']}.{self.udesc['name']}.{name}"
@@ -169,10 +192,12 @@ def _stmt_assigns(stmt, name):
     for n in ast.walk(stmt):
         if isinstance(n, ast.Name) and n.id == name and isinstance(n.ctx, ast.Store):
             return True
+        if isinstance(n, ast.Attribute) and isinstance(n.ctx, ast.Store) and ast.unparse(n) == name:
+            return True
     return False
 
 
-def _Harness_slice(self, qualname, first=None, last=None, first_assign=None, last_assign=None, until_raise=None, env=None, body_of=None):
+def _Harness_slice(self, qualname, first=None, last=None, first_assign=None, last_assign=None, until_raise=None, env=None, body_of=None, first_is_last_assignment=False):
     """Execute a contiguous slice of the top-level statements of the REAL function `qualname`:
     from the first statement assigning `first_assign` through the last statement assigning `last_assign`
     (or the `if` statement that raises `until_raise`).  Statements before the slice are NOT executed: the
@@ -187,7 +212,7 @@ def _Harness_slice(self, qualname, first=None, last=None, first_assign=None, las
     body = fs.node.body
     i0 = i1 = None
     for i, st in enumerate(body):
-        if i0 is None and first_assign and _stmt_assigns(st, first_assign):
+        if first_assign and _stmt_assigns(st, first_assign) and (i0 is None or first_is_last_assignment):
             i0 = i
         if last_assign and _stmt_assigns(st, last_assign):
             i1 = i
@@ -303,6 +328,8 @@ def run_unit(udesc, tier="quick", timeout_ms=None, known=None):
             # an exception escaped the harness without the unit having stated anything about it
             pass
         for ob in pr.obligations:
+            if not ob.name.startswith(udesc["prop"] + "."):
+                ob.name = f"{udesc['prop']}.{udesc['name']}.{ob.name}"
             rec = {"name": ob.name, "kind": ob.meta.get("kind", "ensures")}
             # vacuity: the path must be reachable
             key = tuple(f.get_id() for f in ob.pc)
